@@ -136,7 +136,12 @@ def run(db, cx):
               short(f.loc), path=f.path_locs(p_),
               why="without the flip the track re-enters the volume it just left")
         # failure edges
-        fb = f.branch_blocks(lambda c, _b: c.get("neg") == 1 and local_refs(c.get("refs", [])) == {"volume"})
+        vol_vars = set()
+        for (_b, _i, e) in f.events("write"):
+            if resolve_leaf(path_leaf(e.get("path")) or "", acc) == O + "vol":
+                vol_vars |= local_refs(e.get("refs", []))
+        fb = f.branch_blocks(lambda c, _b: c.get("neg") == 1 and len(local_refs(c.get("refs", []))) == 1
+                             and local_refs(c.get("refs", [])) <= vol_vars)
         cx.floor("cross_boundary failure tests", len(fb), 2)
         for br in fb:
             tgt = f.blocks[br]["succ"][f.cond_polarity_edge(br, False)]
@@ -144,7 +149,7 @@ def run(db, cx):
                                    and e.get("rhs") == "true", start=(tgt, -1))
             # before any use of `volume` it is redefined as the exterior volume
             ok2, _p2 = f.must_pass(
-                lambda e: e["e"] == "def" and e.get("var") == "volume"
+                lambda e: e["e"] == "def" and e.get("var") in vol_vars
                 and "orange_exterior_volume" in e.get("rhs", ""), start=(tgt, -1),
                 unless=None)
             cx.ob("C03.2-cross-boundary", "failed crossing @%s sets failed_ and the exterior volume"
@@ -184,10 +189,11 @@ def run(db, cx):
 
     # -------------------------------------------- 4. find_next_step stores its result
     for f in db.get(OTV + "find_next_step_impl"):
+        isect = f.r["params"][0]["n"]
         for callee, fld in ((OTV + "next_step", "distance"), (OTV + "next_surf", "surface")):
             def pr(e, c=callee, fl=fld):
                 return call_pred(c, 1)(e) and "F:" + D + "Intersection::" + fl in e["args"][0].get("refs", []) \
-                    and "isect" in e["args"][0].get("refs", [])
+                    and isect in e["args"][0].get("refs", [])
             okp, p_ = f.must_pass(pr)
             cx.ob("C03.4-next-step-cache", "find_next_step_impl stores isect.%s" % fld, okp, "",
                   short(f.loc), path=f.path_locs(p_),
@@ -195,14 +201,14 @@ def run(db, cx):
         rd = [ev for (_b, _i, ev) in f.events("write")
               if path_leaf(ev.get("path")) == C + "Propagation::distance"]
         ok = len(rd) == 1 and "F:" + D + "Intersection::distance" in rd[0].get("refs", []) \
-            and "isect" in rd[0].get("refs", [])
+            and isect in rd[0].get("refs", [])
         cx.ob("C03.4-next-step-cache", "returned distance is the cached distance", ok,
               rd[0].get("rhs") if rd else "-", short(f.loc))
         # surface level stored whenever there is an intersection
         lv = [(b, i) for (b, i, ev) in f.calls(OTV + "next_surface_level") if len(ev.get("args", [])) == 1]
         g = False
         for (b, i) in lv:
-            for br in f.branch_blocks(lambda c, _b: local_refs(c.get("refs", [])) == {"isect"}):
+            for br in f.branch_blocks(lambda c, _b: local_refs(c.get("refs", [])) == {isect}):
                 if f.guarded_by_edge((b, i), br, f.cond_polarity_edge(br, True)):
                     # and on that edge it is must-pass
                     tgt = f.blocks[br]["succ"][f.cond_polarity_edge(br, True)]
